@@ -61,6 +61,7 @@ def op? : Sexp → Option Op
   | .list [.atom "suspend", t] => t.nat?.map .suspend
   | .list [.atom "complete", t, o] => do some (.complete (← t.nat?) (← outc? o))
   | .list [.atom "threadEnd", th] => th.nat?.map .threadEnd
+  | .list [.atom "outside", n] => n.nat?.map .outside
   | _ => none
 
 def res? : Sexp → Option Res
@@ -85,10 +86,33 @@ def firstDiff (a b : List Obs) (i : Nat := 0) : Option (Nat × String) :=
   | x :: _, [] => some (i, s!"model={repr x} impl=<missing>")
   | [], y :: _ => some (i, s!"model=<missing> impl={repr y}")
 
-/-- `hdr` = the function declarations; `body` = the observation lines -/
+def isDeco : Sexp → Bool
+  | .list (.atom "deco" :: _) => true
+  | _ => false
+
+/-- `(deco <number of deduplicate() objects> (<function index> <object index>) ...)`: the applications in program order -/
+def deco? : Sexp → Option (Nat × List (Nat × Nat))
+  | .list (.atom "deco" :: n :: apps) => do some ((← n.nat?), (← apps.mapM pair?))
+  | _ => none
+
+/-- the decoration phase of the case run on the model (`decorateAll`, all objects made by `deduplicate()`): does every
+    function end up with the keygetter of its own signature, which is what `step` uses? (always, `C12_keygetter_per_function`) -/
+def decoOk (fns : List FnDecl) (d : Nat × List (Nat × Nat)) : Bool :=
+  let objs : List DecoObj := List.replicate d.1 { captured := none }
+  match d.2.mapM (fun a => (fns[a.1]?).map fun f => (a.2, f.sig)) with
+  | none => false
+  | some apps =>
+    let ks := (decorateAll objs apps).2
+    ks == apps.map (fun a => some (.ofSig a.2)) &&
+      (List.range fns.length).all fun i => d.2.any fun a => a.1 == i
+
+/-- `hdr` = the function declarations (and at most one `deco` item); `body` = the observation lines -/
 def handle (id : Nat) (hdr : List Sexp) (body : List Sexp) : String :=
-  match hdr.mapM fn?, body.mapM obs? with
-  | some fns, some impl =>
+  let decos := hdr.filter isDeco
+  let hdr := hdr.filter (fun x => !isDeco x)
+  match hdr.mapM fn?, body.mapM obs?, decos.mapM deco? with
+  | some fns, some impl, some ds =>
+    if !(ds.all (decoOk fns)) then s!"R {id} CORR=diff SPEC=ok SPECM=ok | decoration phase: a function is not decorated, or by an unknown object" else
     let ops := impl.map (·.op)
     let model := run fns St.init ops
     let corr := firstDiff model impl
@@ -98,6 +122,6 @@ def handle (id : Nat) (hdr : List Sexp) (body : List Sexp) : String :=
     let d := match corr with | none => "" | some (i, s) => (s!"obs {i}: {s}".replace "\n" " ")
     let f (s : String) := if s == "ok" then "ok" else "fail:" ++ s
     s!"R {id} CORR={c} SPEC={f spec} SPECM={f specm} | {d}"
-  | _, _ => s!"R {id} CORR=diff SPEC=ok SPECM=ok | unparsable case"
+  | _, _, _ => s!"R {id} CORR=diff SPEC=ok SPECM=ok | unparsable case"
 
 end AsynqModel.Drv.Dedup
